@@ -381,3 +381,138 @@ package swap
 //@ assume cltv >= 0 && cltv <= 504
 //@ assume mi(conf) + 2 <= mi(seen) && mi(seen) < mi(start) + 504 && mi(seen) <= mi(tip)
 //@ show expiry-before-refund: mi(tip) + (mi(cltv) + 4) < mi(conf) + 1008
+
+// ---------------------------------------------------------------------------
+// maker side: world ghosts and environment contracts (C07 C08 C15 C22 C26)
+// ---------------------------------------------------------------------------
+
+// number of opening transactions broadcast for this swap (survives crashes),
+// and what the wallet reported for it
+//@ ghost opened int
+//@ ghost openTxId string
+//@ ghost openVout uint32
+//@ ghost csvWatch bool
+//@ ghost csvWatchTx string
+//@ ghost csvWatchVout uint32
+//@ ghost senderActive bool
+//@ ghost quarantined string
+//@ ghost dOpeningRecorded bool
+//@ durable dOpeningRecorded swap.OpeningTxBroadcasted != nil
+
+//@ interface Wallet.CreateOpeningTransaction
+//@ requires @C15 once: ghost.opened == 0
+//@ requires @C12 amount: mi(swapParams.Amount) == mi(swap.GetAmount()) + ite(swap.SwapInRequest != nil, mi(swap.SwapInAgreement.Premium), mi(0))
+//@ requires @C12 premium-limit: swap.SwapInRequest != nil ==> swap.SwapInAgreement.Premium <= swap.SwapInRequest.PremiumLimit
+//@ requires @C08 keys: swapParams.TakerPubkey == swap.GetTakerPubkey() && swapParams.MakerPubkey == swap.GetMakerPubkey()
+//@ requires @C08,C02 csv: (swap.GetChain() == btc_chain ==> swapParams.CSV == 1008) && ((swap.GetChain() == l_btc_chain && swap.GetProtocolVersion() == 7) ==> swapParams.CSV == 10080) && ((swap.GetChain() == l_btc_chain && swap.GetProtocolVersion() == 6) ==> swapParams.CSV == 60)
+//@ ensures result5 == nil ==> (ghost.opened == old(ghost.opened) + 1 && ghost.openTxId == result2 && ghost.openVout == result4)
+//@ ensures result5 != nil ==> ghost.opened == old(ghost.opened)
+//@ assigns ghost.opened, ghost.openTxId, ghost.openVout, swapParams.OpeningAddress
+
+//@ interface LightningClient.GetPayreq
+//@ ensures result1 == nil ==> (uf("payreqMsat", uint64(0), result0) == msatAmount && uf("payreqCltv", int64(0), result0) == int64(expiryCltv) && uf("payreqExpiry", uint64(0), result0) == expirySeconds)
+//@ assigns nothing
+
+//@ interface TxWatcher.AddWaitForCsvTx
+//@ requires @C07,C08 output: txID == swap.OpeningTxBroadcasted.TxId && vout == swap.OpeningTxBroadcasted.ScriptOut
+//@ requires @C07,C02 csv: (swap.GetChain() == btc_chain ==> csv == 1008) && ((swap.GetChain() == l_btc_chain && swap.GetProtocolVersion() == 7) ==> csv == 10080)
+//@ ensures ghost.csvWatch && ghost.csvWatchTx == txID && ghost.csvWatchVout == vout
+//@ assigns ghost.csvWatch, ghost.csvWatchTx, ghost.csvWatchVout
+
+//@ interface MessengerManager.AddSender
+//@ ensures result == nil ==> ghost.senderActive
+//@ ensures result != nil ==> ghost.senderActive == old(ghost.senderActive)
+//@ assigns ghost.senderActive
+
+//@ interface MessengerManager.RemoveSender
+//@ ensures !ghost.senderActive
+//@ assigns ghost.senderActive
+
+//@ interface Policy.AddToSuspiciousPeerList
+//@ ensures ghost.quarantined == pubkey
+//@ assigns ghost.quarantined
+
+// json.Marshal of the message structs (strings and integers only) cannot fail
+//@ func MarshalPeerswapMessage
+//@ trusted
+//@ ensures result2 == nil
+//@ ensures result1 == int(msg.MessageType())
+//@ ensures result0 != nil
+//@ assigns nothing
+
+// ---- swap-in sender (maker, initiator) ----
+//@ stateunits getSwapInSenderStates C07 C08 C12 C15 C16 C22 C23 C26
+//@ entryinv getSwapInSenderStates Default @C07,C08,C12,C15,C16,C22,C26 fresh: swap.SwapOutRequest == nil && swap.SwapInRequest == nil && swap.SwapOutAgreement == nil && swap.SwapInAgreement == nil && swap.OpeningTxBroadcasted == nil && ghost.opened == 0
+//@ table getSwapInSenderStates set Started State_SwapInSender_CreateSwap State_SwapInSender_SendRequest State_SwapInSender_AwaitAgreement State_SwapInSender_BroadcastOpeningTx State_SwapInSender_SendTxBroadcastedMessage State_SwapInSender_AwaitClaimPayment State_WaitCsv State_SwapInSender_ClaimSwapCsv State_SwapInSender_ClaimSwapCoop State_SendCancel State_SwapCanceled State_ClaimedPreimage State_ClaimedCsv State_ClaimedCoop
+//@ entryinv getSwapInSenderStates Started @C07,C08,C12,C15,C16,C22,C26 request: swap.SwapInRequest != nil && swap.SwapOutRequest == nil && swap.SwapInRequest.Amount <= 9223372036854775
+//@ table getSwapInSenderStates set NotOpened State_SwapInSender_CreateSwap State_SwapInSender_SendRequest State_SwapInSender_AwaitAgreement State_SendCancel State_SwapCanceled
+//@ entryinv getSwapInSenderStates NotOpened @C07,C15 nothing-opened: ghost.opened == 0 && swap.OpeningTxBroadcasted == nil
+//@ entryinv getSwapInSenderStates State_SwapInSender_BroadcastOpeningTx @C07,C08,C12,C15 agreed: swap.SwapInAgreement != nil && (swap.OpeningTxBroadcasted == nil ==> ghost.opened == 0)
+//@ entryinv getSwapInSenderStates Opened @C07,C08,C15,C22 recorded: swap.OpeningTxBroadcasted != nil && swap.SwapInAgreement != nil && ghost.dOpeningRecorded
+//@ restinv getSwapInSenderStates State_SwapInSender_AwaitClaimPayment @C07 csv-watched: ghost.csvWatch && ghost.csvWatchTx == swap.OpeningTxBroadcasted.TxId && ghost.csvWatchVout == swap.OpeningTxBroadcasted.ScriptOut
+//@ restinv getSwapInSenderStates State_WaitCsv @C07 csv-watched: ghost.csvWatch && ghost.csvWatchTx == swap.OpeningTxBroadcasted.TxId && ghost.csvWatchVout == swap.OpeningTxBroadcasted.ScriptOut
+//@ restinv getSwapInSenderStates MovedOn @C22 sender-stopped: !ghost.senderActive
+//@ table getSwapInSenderStates set Finished State_ClaimedPreimage State_ClaimedCsv State_ClaimedCoop
+//@ restinv getSwapInSenderStates Finished @C22 sender-stopped: !ghost.senderActive
+//@ restinv getSwapInSenderStates State_ClaimedCsv @C26 quarantined: ghost.quarantined == swap.PeerNodeId
+//@ stepinv getSwapInSenderStates Opened @C07,C08 record-kept: old(swap.OpeningTxBroadcasted) != nil ==> (swap.OpeningTxBroadcasted == old(swap.OpeningTxBroadcasted) && swap.OpeningTxBroadcasted.TxId == old(swap.OpeningTxBroadcasted.TxId) && swap.OpeningTxBroadcasted.ScriptOut == old(swap.OpeningTxBroadcasted.ScriptOut))
+
+// ---- swap-out receiver (maker, responder) ----
+//@ stateunits getSwapOutReceiverStates C07 C08 C11 C12 C15 C16 C22 C23 C26
+//@ entryinv getSwapOutReceiverStates Default @C07,C08,C11,C12,C15,C16,C22,C26 fresh: swap.SwapOutRequest == nil && swap.SwapInRequest == nil && swap.SwapOutAgreement == nil && swap.SwapInAgreement == nil && swap.OpeningTxBroadcasted == nil && ghost.opened == 0
+//@ table getSwapOutReceiverStates set Started State_SwapOutReceiver_CreateSwap State_SwapOutReceiver_SendFeeInvoice State_SwapOutReceiver_AwaitFeeInvoicePayment State_SwapOutReceiver_BroadcastOpeningTx State_SwapOutReceiver_SendTxBroadcastedMessage State_SwapOutReceiver_AwaitClaimInvoicePayment State_WaitCsv State_SwapOutReceiver_ClaimSwapCsv State_SwapOutReceiver_ClaimSwapCoop State_ClaimedPreimage State_ClaimedCsv State_ClaimedCoop
+//@ entryinv getSwapOutReceiverStates Started @C07,C08,C11,C12,C15,C16,C22,C26 request: swap.SwapOutRequest != nil && swap.SwapInRequest == nil && swap.SwapOutRequest.Amount <= 9223372036854775
+//@ table getSwapOutReceiverStates set NotOpened State_SwapOutReceiver_CreateSwap State_SwapOutReceiver_SendFeeInvoice State_SwapOutReceiver_AwaitFeeInvoicePayment State_SendCancel State_SwapCanceled
+//@ entryinv getSwapOutReceiverStates NotOpened @C07,C15 nothing-opened: ghost.opened == 0 && swap.OpeningTxBroadcasted == nil
+//@ table getSwapOutReceiverStates set Agreed State_SwapOutReceiver_SendFeeInvoice State_SwapOutReceiver_AwaitFeeInvoicePayment State_SwapOutReceiver_BroadcastOpeningTx State_SwapOutReceiver_SendTxBroadcastedMessage State_SwapOutReceiver_AwaitClaimInvoicePayment State_WaitCsv State_SwapOutReceiver_ClaimSwapCsv State_SwapOutReceiver_ClaimSwapCoop
+//@ entryinv getSwapOutReceiverStates Agreed @C07,C08,C12,C15 agreed: swap.SwapOutAgreement != nil
+//@ entryinv getSwapOutReceiverStates State_SwapOutReceiver_BroadcastOpeningTx @C07,C15 not-twice: swap.OpeningTxBroadcasted == nil ==> ghost.opened == 0
+//@ entryinv getSwapOutReceiverStates Opened @C07,C08,C15,C22 recorded: swap.OpeningTxBroadcasted != nil && ghost.dOpeningRecorded
+//@ restinv getSwapOutReceiverStates State_SwapOutReceiver_AwaitClaimInvoicePayment @C07 csv-watched: ghost.csvWatch && ghost.csvWatchTx == swap.OpeningTxBroadcasted.TxId && ghost.csvWatchVout == swap.OpeningTxBroadcasted.ScriptOut
+//@ restinv getSwapOutReceiverStates State_WaitCsv @C07 csv-watched: ghost.csvWatch && ghost.csvWatchTx == swap.OpeningTxBroadcasted.TxId && ghost.csvWatchVout == swap.OpeningTxBroadcasted.ScriptOut
+//@ restinv getSwapOutReceiverStates MovedOn @C22 sender-stopped: !ghost.senderActive
+//@ table getSwapOutReceiverStates set Finished State_ClaimedPreimage State_ClaimedCsv State_ClaimedCoop
+//@ restinv getSwapOutReceiverStates Finished @C22 sender-stopped: !ghost.senderActive
+//@ restinv getSwapOutReceiverStates State_ClaimedCsv @C26 quarantined: ghost.quarantined == swap.PeerNodeId
+//@ stepinv getSwapOutReceiverStates Opened @C07,C08 record-kept: old(swap.OpeningTxBroadcasted) != nil ==> (swap.OpeningTxBroadcasted == old(swap.OpeningTxBroadcasted) && swap.OpeningTxBroadcasted.TxId == old(swap.OpeningTxBroadcasted.TxId) && swap.OpeningTxBroadcasted.ScriptOut == old(swap.OpeningTxBroadcasted.ScriptOut))
+
+// ---------------------------------------------------------------------------
+// the FSM driver (C09 and the model the per-state units rest on)
+// ---------------------------------------------------------------------------
+
+// A message is applied to the swap data only for an event the current state
+// accepts (the event is rejected before ApplyToSwapData otherwise), and every
+// action is followed by a store write before the next action runs.
+//@ ghost dirty bool
+//@ interface EventContext.ApplyToSwapData
+//@ requires @C09,C01,C04,C08,C12,C13,C15 accepted: has(s.States, s.Current) && has(s.States[s.Current].Events, event)
+//@ ensures ghost.dirty
+//@ assigns data.SwapInRequest, data.SwapInAgreement, data.SwapOutRequest, data.SwapOutAgreement, data.OpeningTxBroadcasted, data.CoopClose, data.Cancel, ghost.dirty
+
+//@ interface EventContext.Validate
+//@ assigns nothing
+
+//@ interface Action.Execute
+//@ requires @C13,C15,C07 persisted-before: !ghost.dirty
+//@ ensures ghost.dirty
+
+//@ interface Store.UpdateData
+//@ ensures result == nil ==> !ghost.dirty
+//@ assigns ghost.dirty
+
+//@ func (*SwapStateMachine).SendEvent
+//@ property C09 C13 C15 C01 C04 C07 C08 C12
+//@ requires s != nil && s.swapServices != nil && s.Data != nil && !ghost.dirty
+//@ loop 0 invariant !ghost.dirty
+//@ ensures @C13,C15 persisted: (result1 == nil) ==> !ghost.dirty
+
+//@ func (*SwapStateMachine).Recover
+//@ property C13 C15 C07
+//@ requires s != nil && s.swapServices != nil && s.Data != nil && !ghost.dirty
+//@ ensures @C13,C15 persisted: (result1 == nil) ==> !ghost.dirty
+
+// the request was validated: exactly one of asset / network is set
+//@ entryinv getSwapInSenderStates Started @C07,C15,C16 chain-valid: swap.GetChain() == btc_chain || swap.GetChain() == l_btc_chain
+//@ entryinv getSwapOutReceiverStates Started @C07,C15,C16 chain-valid: swap.GetChain() == btc_chain || swap.GetChain() == l_btc_chain
+// a recorded opening transaction implies that the premium was checked before it was broadcast
+//@ entryinv getSwapInSenderStates State_SwapInSender_BroadcastOpeningTx @C07,C15 recorded-implies-checked: swap.OpeningTxBroadcasted != nil ==> (swap.SwapInAgreement.Premium <= swap.SwapInRequest.PremiumLimit && swap.SwapInAgreement.Premium <= 9223372036854775 && mi(swap.SwapInRequest.Amount) + mi(swap.SwapInAgreement.Premium) >= 0 && mi(swap.SwapInRequest.Amount) + mi(swap.SwapInAgreement.Premium) <= 9223372036854775)
